@@ -154,6 +154,41 @@ def make_counting_mapping(cols, rows):
     return CountingRowMapping(key, d)
 
 
+_HANDLE_CLASSES = None
+
+
+def handle_engine_classes():
+    """Engine subclasses with *value* equality: two handles on the same backend are equal but not identical (the library
+    compares engines with == throughout, so such engines are legal).  engine.handle() returns a second handle."""
+    global _HANDLE_CLASSES
+    if _HANDLE_CLASSES is None:
+        from lsst.daf.relation import iteration, sql
+
+        def make(base):
+            class Handle(base):
+                def __eq__(self, other):
+                    if other is self:
+                        return True
+                    mine = getattr(self, "backend_", None)
+                    return type(other) is type(self) and mine is not None and getattr(other, "backend_", None) is mine
+
+                def __hash__(self):
+                    return hash((type(self).__name__, self.name))
+
+                def handle(self):
+                    if getattr(self, "backend_", None) is None:
+                        self.backend_ = object()
+                    other = type(self)(name=self.name, functions=dict(self.functions))
+                    other.backend_ = self.backend_
+                    return other
+
+            Handle.__name__ = f"Handle{base.__module__.split('.')[-2].capitalize()}Engine"
+            return Handle
+
+        _HANDLE_CLASSES = (make(sql.Engine), make(iteration.Engine))
+    return _HANDLE_CLASSES
+
+
 class Env:
     """Engines 0 = SQL "S", 1 = iteration "A", 2 = iteration "B"."""
 
